@@ -74,6 +74,9 @@ def parseForm (s : String) : Option FieldForm :=
     | ['3', 'n', nf, vf] => some (.tuple3 (mkStr nf n) (mkStr vf v) false)   -- None: falsy
     | ['3', '0', nf, vf] => some (.tuple3 (mkStr nf n) (mkStr vf v) false)   -- 0: falsy
     | ['3', '1', nf, vf] => some (.tuple3 (mkStr nf n) (mkStr vf v) true)    -- 1: truthy
+    | ['3', 'y', nf, vf] => some (.tuple3 (mkStr nf n) (mkStr vf v) true)    -- "yes": truthy
+    | ['3', '2', nf, vf] => some (.tuple3 (mkStr nf n) (mkStr vf v) true)    -- 2: truthy
+    | ['3', 'e', nf, vf] => some (.tuple3 (mkStr nf n) (mkStr vf v) false)   -- "": falsy
     | ['T', nf, vf] => some (.headerTuple (mkStr nf n) (mkStr vf v))         -- subclass of HeaderTuple
     | ['S', nf, vf] => some (.neverTuple (mkStr nf n) (mkStr vf v))          -- subclass of NeverIndexedHeaderTuple
     | ['H', nf, vf] => some (.headerTuple (mkStr nf n) (mkStr vf v))
@@ -206,14 +209,21 @@ def step (w : W) (toks : List String) : W × String :=
     | none => (w, "bad-id")
     | some e =>
       let fs := if fs == ["-"] then [] else fs
+      -- a malformed header (form letter X: a 1-tuple) makes `encode` raise IndexError at that field; everything
+      -- before it has been processed (pending size updates flushed, earlier fields inserted) and nothing is returned
+      let isBad := fun (s : String) => s.startsWith "X"
+      let hasBad := cont != "dict" && fs.any isBad
+      let good := if hasBad then fs.takeWhile (fun s => !isBad s) else fs
       let c : Option Container :=
-        if cont == "dict" then (fs.mapM parseItem).map Container.dict
-        else (fs.mapM parseForm).map Container.iterable
+        if cont == "dict" then (good.mapM parseItem).map Container.dict
+        else (good.mapM parseForm).map Container.iterable
       match c with
       | none => (w, "bad-op")
       | some c =>
         match e.encodeApi w.cfg.strict c (huff == "1") with
-        | .ok (b, e') => ({ w with encs := aset w.encs id.toNat! e', lastOut := aset w.lastOut id.toNat! b }, "ok " ++ toHex b ++ " | " ++ showEnc e')
+        | .ok (b, e') =>
+          if hasBad then ({ w with encs := aset w.encs id.toNat! e' }, "esc IndexError | " ++ showEnc e')
+          else ({ w with encs := aset w.encs id.toNat! e', lastOut := aset w.lastOut id.toNat! b }, "ok " ++ toHex b ++ " | " ++ showEnc e')
         | r => (w, showFail r ++ " | " ++ showEnc e)
   | ["edump", id] =>
     match aget w.encs id.toNat! with
